@@ -298,8 +298,34 @@ static void run_float_call(size_t ci, const char *sched, const char *proc) {
     free(ys);
 }
 
+/* the call class being exercised, for the late-crash hook */
+static char g_cur_id[96];
+static const char *g_cur_sched = "", *g_cur_proc = "";
+static void late_crash(int sig) {
+    (void)sig;
+    /* the heap was corrupted by a library call of this class under this
+     * schedule: a crash under a perturbed context */
+    ev_begin("Call");
+    ev_str("id", g_cur_id);
+    ev_str("proc", g_cur_proc);
+    ev_str("sched", g_cur_sched);
+    ev_int("fault", 4);
+    ev_int("written", -1);
+    ev_limbs("digest", 0);
+    ev_int("decoded", 0);
+    ev_limbs("ydigest", 0);
+    ev_bytes("head", (const uint8_t *)"", 0);
+    ev_end();
+    tr_close();
+    _exit(0);
+}
+
 static void run_call(size_t ci, const char *sched, const char *proc) {
     const pcall *c = &CALLS[ci];
+    snprintf(g_cur_id, sizeof(g_cur_id), "%s/%ld/%zu/%s/%ld", c->codec, c->param, c->n, c->shape, c->sparam);
+    g_cur_sched = sched;
+    g_cur_proc = proc;
+    g_late_crash = late_crash;
     if (!strcmp(c->codec, "float")) {
         run_float_call(ci, sched, proc);
         return;
